@@ -602,6 +602,7 @@ def report(prop, tier, seed, t0, results, meta, args):
         "checker_cmd": f"python3-vt pyvc/check.py {prop} --tier {tier}",
         "trusted_base": [
             "pyvc symbolic interpreter of the Python AST (encoding of Python semantics, DESIGN.md 2.2-2.3)",
+            "per-call contracts extend to call histories by induction over the global frame, which is checked on every path for the namespaces of the someip modules and their classes (DESIGN.md 3.5); state kept in closures, function attributes or C-level caches is not tracked",
             "library models in pyvc/lib.py, pyvc/ghost.py (struct, enum, dataclasses, dict/list/bytes, asyncio loop model)",
             "z3 5.1.0 (cvc5 1.0.3 for z3-unknowns)",
         ]
